@@ -946,6 +946,7 @@ static pid_t hang_pid[MAXW], hang_killed[MAXW];
 static uint64_t hang_nops[MAXW];
 static int64_t hang_case[MAXW];
 static double hang_cpu0[MAXW], hang_scan;
+static int hang_deaths;
 
 int vrt_main(int argc, char **argv, const struct vrt_harness *h)
 {
@@ -1088,6 +1089,8 @@ int vrt_main(int argc, char **argv, const struct vrt_harness *h)
             read_head(path, errtxt, 65536);
             classify_death(st, errtxt, kind, sizeof(kind));
             if (hang_killed[i] == pid) snprintf(kind, sizeof(kind), "hang.cpu-120s-in-one-call");
+            /* every hang costs minutes: after the second one the verdict is clear, hand out no more cases */
+            if (strncmp(kind, "hang.", 5) == 0 && ++hang_deaths >= 2) G->stop = 1;
             if (was_finished)
                 /* the cases completed; a tool (memcheck --error-exitcode, TSan) made the exit status non-zero:
                  * its report is on the harness's stderr, the entry point is not known */
